@@ -103,6 +103,7 @@ def run(ctx):
     lc.validate(ctx, "C03", traces, results, kinds_for_property=None, sigfn=c03_sig,
                 ignore_kinds=lc.RESOURCE_KINDS[:3])   # the clusters' breaker books at quiesce are C10's to judge
     repotests_part.finish(ctx, rt, "C03")
+    __import__("mirror_part").run(ctx, "C03")   # the shipped traffic-mirror filter: the mirror cluster is one more upstream (spec/lifecycle/Mirror.tla)
     ctx.cov["exhaustive"] = not q
     ctx.cov["rule"] = ("one case = (cluster shape, per-arrival upstream script, per-try timeout on/off, gate point held, event forced "
                        "to happen meanwhile) from Scenarios.tla (%d feasible cases); each realised once on the in-process MOSN over "
